@@ -49,24 +49,26 @@ def reduceForward : Nat → MergeSt → Nat → List Nat → M (MergeSt × List 
       let ns := if ns.head? == some v && ns.getLast? == some u then ns.reverse else ns
       pure ({ s with g }, ns)
 
+/-- one iteration of `for _, e := range g.Edges` (k = index into the backing array as the range sees it) -/
+def mergeStep (acc : MergeSt × List (Nat × List Nat)) (k : Nat) : M (MergeSt × List (Nat × List Nat)) :=
+  let s := acc.1
+  let routes := acc.2
+  let e := s.arr.getD k 0
+  match edgeType s.g e with
+  | 0 =>
+    let (u, v) := orderedNodes s.g e
+    pure ({ s with g := s.g.modEdge e fun ed => { ed with ahs := ed.rev } }, routes ++ [(e, [u, v])])
+  | 1 =>
+    if !(s.g.node (s.g.edge e).src).virt then do
+      let (s', ns) ← reduceForward (s.g.nodes.size + 2) s e [(s.g.edge e).src]
+      pure (s', routes ++ [(e, ns)])
+    else pure (s, routes)
+  | _ => pure (s, routes)
+
 /-- `mergeLongEdges`: the routes in the order the live range produces them -/
 def mergeLongEdges (g : G) : M (G × List (Nat × List Nat)) := do
   let n0 := g.elist.length
-  let mut s : MergeSt := { g, arr := g.elist, len := n0 }
-  let mut routes : List (Nat × List Nat) := []
-  for k in List.range n0 do
-    let e := s.arr.getD k 0
-    match edgeType s.g e with
-    | 0 =>
-      let (u, v) := orderedNodes s.g e
-      s := { s with g := s.g.modEdge e fun ed => { ed with ahs := ed.rev } }
-      routes := routes ++ [(e, [u, v])]
-    | 1 =>
-      if !(s.g.node (s.g.edge e).src).virt then
-        let (s', ns) ← reduceForward (s.g.nodes.size + 2) s e [(s.g.edge e).src]
-        s := s'
-        routes := routes ++ [(e, ns)]
-    | _ => pure ()
+  let (s, routes) ← (List.range n0).foldlM mergeStep ({ g, arr := g.elist, len := n0 }, [])
   pure (s.sync, routes)
 
 def startPoint (g : G) (n : Nat) : Pt := let nd := g.node n; (nd.x + nd.w / 2, nd.y + nd.h)
